@@ -765,6 +765,7 @@ def tie_C08(ctx):
             for how in ("rng", "try"):
                 r.append([f"src 1 {(blk_ + rand_bytes(rng, 2 * nb)).hex()}", f"new 0 {g} {how} 1", "ser 0", "pos 1", f"{native(g)} 0"])
                 ctx.dist["first-block:" + cls.split("_")[0]] += 1
+    xorshift_zero_runs(ctx, "XorShiftRng from_rng/try_from_rng: long runs of all-zero blocks (redraw, no preset, no zero state)")
     h, _ = ctx.absolute("from_rng/try_from_rng on sources with k leading all-zero blocks", r)
     for c, o in zip(r, h):
         g = c[1].split()[2]
@@ -780,6 +781,42 @@ def tie_C08(ctx):
             if o[2] != want or o[3] != str(16 * (k + 1)):
                 ctx.fail("redraw", "XorShiftRng: from_rng does not return the first non-zero block / consumes wrong amount", c,
                          expected=f"{want} pos={16*(k+1)}", actual=f"{o[2]} pos={o[3]}")
+
+
+# ------------------------------------------------------------------ XorShiftRng redraw loop: long runs of all-zero blocks
+ZERO_RUNS_QUICK = [4, 7, 8, 9, 15, 16, 17, 63, 64, 65, 127, 128, 129, 255, 256, 257, 1000]
+ZERO_RUNS_THOROUGH = [1023, 1024, 1025, 4095, 4096, 4097, 65535, 65536, 65537, 100000]
+
+def xorshift_zero_runs(ctx, family, fail_prop=None):
+    """XorShiftRng::from_rng / try_from_rng on sources that deliver k all-zero 16-byte blocks first (k up to the
+    u8/u16 boundaries and beyond): the generator must be built from the first non-zero block, the source advanced by
+    16(k+1) bytes, never the all-zero state, never a preset; a source failing at call j <= k must surface as that error.
+    Property-level oracle on the real code (the redraw rule of C08/C09) + comparison with the model."""
+    rng = ctx.rng
+    ks = ZERO_RUNS_QUICK + (ZERO_RUNS_THOROUGH if ctx.thorough else [rng.choice(ZERO_RUNS_THOROUGH[:6])])
+    cases = []
+    for k in ks:
+        blk = rand_bytes(rng, 16)
+        while not any(blk):
+            blk = rand_bytes(rng, 16)
+        tail = rand_bytes(rng, 24)
+        for how in ("rng", "try"):
+            cases.append((k, blk, None, [f"src 1 z{16 * k}:{(blk + tail).hex()}", f"new 0 XorShiftRng {how} 1", "ser 0", "pos 1", "u32 0"]))
+        for j in sorted({k, max(0, k - 1), k // 2}):
+            cases.append((k, blk, j, [f"src 1 z{16 * k}:{(blk + tail).hex()} {j}", "new 0 XorShiftRng try 1", "ser 0", "pos 1"]))
+        ctx.dist[f"zero-run={k}"] += 1
+    scripts = [c[3] for c in cases]
+    h, _ = ctx.absolute(family, scripts)
+    for (k, blk, j, c), o in zip(cases, h):
+        if j is None:
+            if o[1] != "ok" or o[2] != blk.hex() or o[3] != str(16 * (k + 1)):
+                what = "the all-zero state" if o[1] == "ok" and st_int(o[2]) == 0 else "not the first non-zero block / wrong amount consumed"
+                ctx.fail("redraw", f"XorShiftRng::{'try_from_rng' if ' try ' in c[1] else 'from_rng'} after {k} all-zero blocks: {what}",
+                         c, expected=f"ok {blk.hex()} pos={16*(k+1)}", actual=f"{o[1]} {o[2]} pos={o[3]}")
+        else:
+            if o[1] != f"err {1000 + j}":
+                ctx.fail("redraw-error", f"XorShiftRng::try_from_rng: source fails at call {j} (after {j} all-zero blocks) but the "
+                         f"result is `{o[1]}`", c, expected=f"err {1000 + j}", actual=o[1])
 
 # ------------------------------------------------------------------ C09: seeding routes agree
 def pcg32_seed(x, n):
@@ -859,6 +896,7 @@ def tie_C09(ctx):
             sseed = rand_bytes(rng, GENS[sg]["seed"])
             fr.append([f"new 1 {sg} seed {sseed.hex()}", "clone 3 1", f"new 0 {g} rng 1", f"fill 3 {nb}", "u64 1", "u64 3",
                        f"{native(g)} 0"])
+    xorshift_zero_runs(ctx, "XorShiftRng from_rng/try_from_rng: long runs of all-zero blocks, errors after k redraws")
     # values produced afterwards belong to C01-C05; here: ok/err, bytes consumed, == with from_seed(bytes); the model is
     # the value reference only for ISAAC (1024/2048-byte state, two passes: no from_seed equivalent exists)
     h, _ = ctx.absolute("from_rng / try_from_rng: bytes consumed, result, error propagation vs model", fr,
